@@ -282,6 +282,15 @@ fn directed_programs() -> Vec<Program> {
                 ("entry", IdKind::Function, None), ("x", IdKind::Param, None), ("la", IdKind::Local, None), ("lb", IdKind::Local, None),
             ],
         ),
+        (
+            // wave intrinsics: the Metal exporter threads the lane count / lane index through every function on the call path as
+            // implicit parameters with names of its own
+            "static int @G@ = 3;\nint @lanes@(int @p@)\n{\n    int @l@ = (int)WaveGetLaneCount() * 2;\n    int @m@ = (int)WaveGetLaneIndex();\n    return @l@ + @m@ + @p@ + @G@;\n}\nint @entry@(int @x@)\n{\n    int @y@ = @lanes@(@x@);\n    return @y@ + (int)WaveGetLaneCount();\n}\n",
+            vec![
+                ("G", IdKind::Global, None), ("lanes", IdKind::Function, None), ("p", IdKind::Param, None), ("l", IdKind::Local, None), ("m", IdKind::Local, None),
+                ("entry", IdKind::Function, None), ("x", IdKind::Param, None), ("y", IdKind::Local, None),
+            ],
+        ),
     ];
     let mut out = Vec::new();
     for (text, ids) in specs {
@@ -319,6 +328,19 @@ fn make_case(seed: u64, index: u64) -> Case {
                     if kind == IdKind::Global {
                         s1.shared_global_name = true;
                     }
+                }
+            }
+        }
+        if program.template.contains("WaveGetLaneCount") {
+            // user names spelled like the implicit parameters of the Metal exporter
+            let mut spellings = vec!["threads_per_simdgroup", "thread_index_in_simdgroup"];
+            rng.shuffle(&mut spellings);
+            let candidates: Vec<usize> = (0..program.idents.len()).filter(|i| matches!(program.idents[*i].kind, IdKind::Local | IdKind::Param | IdKind::Global)).collect();
+            for spelling in spellings.into_iter().take(1 + rng.below(2)) {
+                let i = *rng.pick(&candidates);
+                if !s1.names.iter().any(|n| n == spelling) {
+                    s1.names[i] = spelling.to_string();
+                    s1.adversarial.push(i);
                 }
             }
         }
@@ -436,14 +458,27 @@ pub fn examine(case: &Case, origin: &str, seed: u64, report: &mut Report) -> boo
                     );
                 }
             }
+            let names_now: Vec<&String> = if which == "s0" { p.idents.iter().map(|i| &i.name).collect() } else { case.s1.names.iter().collect() };
             for (a, b) in decls::clashes(&declared) {
                 if which == "s1" {
                     clash_targets.insert(t.name());
                 }
                 let mut kinds = [a.kind, b.kind];
                 kinds.sort();
+                // more declarations of the name in this scope than the user has entities of that name: one of them is a
+                // declaration the exporter introduced itself (an implicit parameter, a helper)
+                // (a user entity reaches the output under its own name or, renamed, as <name>_N)
+                let by_user = names_now
+                    .iter()
+                    .filter(|n| {
+                        let n = n.as_str();
+                        a.name == n || (a.name.len() > n.len() + 1 && a.name.starts_with(n) && a.name[n.len()..].starts_with('_') && a.name[n.len() + 1..].chars().all(|c| c.is_ascii_digit() || c == '_'))
+                    })
+                    .count();
+                let in_scope = declared.iter().filter(|d| d.name == a.name && d.scope == a.scope).count();
+                let generated = if in_scope > by_user { ":with-exporter-declaration" } else { "" };
                 report.violation(
-                    &format!("name-clash-in-scope:{}+{}", kinds[0], kinds[1]),
+                    &format!("name-clash-in-scope:{}+{}{}", kinds[0], kinds[1], generated),
                     &format!("the emitted {} declares {} `{}` and {} `{}` in the same scope {}", t.name(), a.kind, a.name, b.kind, b.name, a.scope),
                     witness(Json::obj().set("first", a.kind).set("second", b.kind).set("name", a.name.as_str()).set("scope", a.scope.as_str()).set("naming", which)),
                 );
@@ -456,7 +491,6 @@ pub fn examine(case: &Case, origin: &str, seed: u64, report: &mut Report) -> boo
                     witness(Json::obj().set("callee", callee.as_str()).set("caller", caller.as_str()).set("naming", which)),
                 );
             }
-            let names_now: Vec<&String> = if which == "s0" { p.idents.iter().map(|i| &i.name).collect() } else { case.s1.names.iter().collect() };
             // a name generated for a global-scope entity must not be the spelling of a user's local or parameter: both would be
             // visible in that function (source names are unique per entity in these programs, so any such pair is introduced).
             // HLSL only: the Metal output carries mutable globals as extra parameters named like the global, which this
